@@ -244,7 +244,7 @@ def step (cfg : Cfg) (s : St K V) : Op K V → St K V × Out V
     | .genError e => (s, .raised e 0)
     | .unhashable e => (s, .raised e 0)
   | .clear keep =>
-    let s1 := if cfg.algo = .no then s else { s.clearBook with c := s.c.clearMem }
+    let s1 : St K V := { s.clearBook with c := s.c.clearMem }
     (if keep then s1 else { s1 with hit := 0, miss := 0, load := 0 }, .unit)
   | .load ks => ({ s with c := s.c.loadKeys ks }, .unit)
   | .loadAll => ({ s with c := s.c.loadAll }, .unit)
